@@ -150,12 +150,17 @@ pub fn node_case(ctx: &mut Ctx, code: Option<&str>, queries: Vec<Value>) -> Resu
 
 /// Which known defect model (quirk) explains `got` for (d, v)?  See member.rs `Quirks`.
 pub fn explain(env: &Env, d: &D, v: &JsVal, mode: Mode, got: bool) -> Option<&'static str> {
-    for q in crate::member::ALL_QUIRKS {
+    explain_with(env, d, v, mode, got, false)
+}
+/// `through_engine`: the program re-materialises types from the semantic engine (Exclude spellings)
+pub fn explain_with(env: &Env, d: &D, v: &JsVal, mode: Mode, got: bool, through_engine: bool) -> Option<&'static str> {
+    for (q, du_model) in crate::member::ALL_QUIRKS.iter().flat_map(|q| if through_engine { vec![(q, true), (q, false)] } else { vec![(q, true)] }) {
         // the unspecified zone is completed both ways: a defect model explains the observation if it does so
         // under some reading of what the statement leaves open
         for completion in [None, Some(false), Some(true)] {
             let mut r = Ref::with_quirk(env, mode, q);
             r.unspec_as = completion;
+            r.du_model = du_model;
             let mut b = Ref::new(env, mode);
             b.unspec_as = completion;
             let m = r.member(d, v);
